@@ -466,6 +466,10 @@ func ScalarSpecials() []V {
 		}
 	}
 
+	for _, v := range GLVRounding() {
+		add(v, "glv-rounding")
+	}
+
 	rn := new(big.Int).Mod(two256, n)
 	for _, x := range []*big.Int{oracle.Mod(oracle.Gx, n), oracle.Mod(oracle.Gy, n), oracle.Mod(oracle.P, n), rn, new(big.Int).ModInverse(rn, n), oracle.Mod(oracle.Beta, n)} {
 		add(x, "curve-constant")
@@ -733,6 +737,70 @@ func HalfZeroTargets(m *big.Int) []*big.Int {
 			if v := oracle.FromLimbs(l); v.Sign() > 0 && v.Cmp(m) < 0 {
 				out = append(out, v)
 			}
+		}
+	}
+
+	return out
+}
+
+// GLVRounding returns scalars k on the rounding boundaries of the endomorphism (GLV) decomposition k = k1 + k2*lambda:
+// with (a1, b1), (a2, b2) the short lattice basis obtained from the extended Euclidean algorithm on (n, lambda), the
+// decomposition rounds c = b*k/n for b in {|b1|, |b2|, ...}. The returned k put c a quarter below / above a multiple of
+// 2^64 (the integer part then has an all-ones resp. all-zero low word and the rounding bit decides a carry across the
+// word boundary), resp. next to j + 1/2 for small j: what a fixed-point "multiply and shift" rounding gets wrong.
+func GLVRounding() []*big.Int {
+	n := oracle.N
+	e3 := new(big.Int).Div(new(big.Int).Sub(n, big.NewInt(1)), big.NewInt(3))
+
+	var lam *big.Int
+
+	for g := int64(2); g < 20; g++ {
+		if l := new(big.Int).Exp(big.NewInt(g), e3, n); l.Cmp(big.NewInt(1)) != 0 {
+			lam = l
+			break
+		}
+	}
+
+	// extended Euclid on (n, lambda): remainders r and cofactors t with r = s*n + t*lambda
+	r0, r1 := new(big.Int).Set(n), new(big.Int).Set(lam)
+	t0, t1 := big.NewInt(0), big.NewInt(1)
+	sq := new(big.Int).Sqrt(n)
+
+	var mags []*big.Int
+
+	for r1.Sign() != 0 {
+		q := new(big.Int).Div(r0, r1)
+		r0, r1 = r1, new(big.Int).Sub(r0, new(big.Int).Mul(q, r1))
+		t0, t1 = t1, new(big.Int).Sub(t0, new(big.Int).Mul(q, t1))
+
+		// the vectors around the point where the remainder drops below sqrt(n)
+		if r0.BitLen() <= sq.BitLen()+2 && r0.BitLen() >= sq.BitLen()-3 {
+			mags = append(mags, new(big.Int).Abs(r0), new(big.Int).Abs(t0))
+		}
+	}
+
+	var out []*big.Int
+
+	for _, b := range mags {
+		if b.BitLen() < 100 {
+			continue
+		}
+
+		var c4s []*big.Int // 4*c
+
+		for _, m := range []*big.Int{big.NewInt(1), big.NewInt(2), big.NewInt(3), pow2(31), pow2(32), pow2(60), addI(pow2(61), -1), pow2(63), addI(pow2(64), -1)} {
+			base := new(big.Int).Lsh(m, 66) // 4 * 2^64 * m
+			c4s = append(c4s, addI(base, -1), addI(base, 1), addI(base, -2), addI(base, -3))
+		}
+
+		for j := int64(0); j < 4; j++ {
+			c4s = append(c4s, big.NewInt(4*j+2), big.NewInt(4*j+1), big.NewInt(4*j+3))
+		}
+
+		for _, c4 := range c4s {
+			k := new(big.Int).Mul(c4, n)
+			k.Div(k, new(big.Int).Lsh(b, 2))
+			out = append(out, k, addI(k, 1))
 		}
 	}
 
